@@ -40,6 +40,9 @@ def okey(out):
 def predicted(out):
     if out[0] == 'ret':
         return {'kind': 'ret'}
+    ab = getattr(out[4], 'abstract_class', None)
+    if ab:
+        return {'kind': 'exc', 'cls_in': list(ab)}
     return {'kind': 'exc', 'cls': out[1]}
 
 
